@@ -19,21 +19,26 @@ type TraceCase struct {
 // ReplayTrace re-executes a recorded trace (without the explorer) through the
 // same world oracles. Steps: "empty", "block[a + b]", "revert(k)".
 func ReplayTrace(c *vf.Ctx, raw json.RawMessage, menus func(model string) func(w *World) []Action, prop string, opt Options) {
+	ReplayTraceWorld(c, raw, menus, prop, opt)
+}
+
+// ReplayTraceWorld is ReplayTrace returning the final world (nil on failure).
+func ReplayTraceWorld(c *vf.Ctx, raw json.RawMessage, menus func(model string) func(w *World) []Action, prop string, opt Options) *World {
 	var tc TraceCase
 	if err := json.Unmarshal(raw, &tc); err != nil {
 		c.HarnessError("bad trace case: %v", err)
-		return
+		return nil
 	}
 	menu := menus(tc.Model)
 	if menu == nil {
 		c.HarnessError("unknown model %q", tc.Model)
-		return
+		return nil
 	}
 	keys := NewKeys(tc.Seed)
 	w, p := NewWorld(Spec(tc.Network), keys, DefaultAlloc(keys), opt)
 	if p != nil {
 		c.Violate(prop+"|genesis|"+p.Sig, p.Desc, tc)
-		return
+		return nil
 	}
 	for i, step := range tc.Trace {
 		c.Count("evaluations", 1)
@@ -42,10 +47,10 @@ func ReplayTrace(c *vf.Ctx, raw json.RawMessage, menus func(model string) func(w
 			b, bs := w.BuildBlock(nil, nil, BlockOpts{})
 			if err, p := w.Apply(b, bs); p != nil {
 				c.Violate(prop+"|"+p.Sig, p.Desc, tc)
-				return
+				return nil
 			} else if err != nil {
 				c.Violate(prop+"|honest-rejected|empty", err.Error(), tc)
-				return
+				return nil
 			}
 		case strings.HasPrefix(step, "revert("):
 			var k int
@@ -53,7 +58,7 @@ func ReplayTrace(c *vf.Ctx, raw json.RawMessage, menus func(model string) func(w
 			for j := 0; j < k; j++ {
 				if p := w.Revert(); p != nil {
 					c.Violate(prop+"|"+p.Sig, p.Desc, tc)
-					return
+					return nil
 				}
 			}
 		case strings.HasPrefix(step, "block["):
@@ -67,28 +72,29 @@ func ReplayTrace(c *vf.Ctx, raw json.RawMessage, menus func(model string) func(w
 						found = true
 						if !a.Do(bc) {
 							c.HarnessError("step %d: action %s not applicable on replay", i, n)
-							return
+							return nil
 						}
 						break
 					}
 				}
 				if !found {
 					c.HarnessError("step %d: unknown action %s", i, n)
-					return
+					return nil
 				}
 			}
 			b, bs := w.BuildBlock(bc.V1, bc.V2, BlockOpts{})
 			if err, p := w.Apply(b, bs); p != nil {
 				c.Violate(prop+"|"+p.Sig, p.Desc, tc)
-				return
+				return nil
 			} else if err != nil {
 				c.Violate(prop+"|honest-rejected|"+lastName([]string{step}), err.Error(), tc)
-				return
+				return nil
 			}
 		default:
 			c.HarnessError("step %d: cannot replay %q", i, step)
-			return
+			return nil
 		}
 	}
 	c.Sample(tc)
+	return w
 }
